@@ -44,7 +44,18 @@ inductive Err
   | noAcc          -- Exception: symbol table lookup failed / accelerator not registered
   | keyError       -- KeyError: field not in the declared dictionary
   | assertLaunch   -- AssertionError: `assert "launch" in field`
+  | zeroDiv        -- ZeroDivisionError: `m // (len(mult_vals) // n)` with fewer multipliers than one group
+  | valueError     -- ValueError: `zip(values, offsets, strict=True)` in pack_bitlist (a shift chunk of < 4 values)
 deriving DecidableEq, Repr
+
+/-- `dict(pairs)[k]`: the value of the LAST occurrence of `k` -/
+def lastLookup {α} : List (String × α) → String → Option α
+  | [], _ => none
+  | (k', v) :: r, k =>
+    match lastLookup r k with
+    | some x => some x
+    | none => if k' == k then some v else none
+
 
 /-- one loop-carried position of an `scf.for` -/
 inductive FSlot
@@ -69,6 +80,9 @@ mutual
 inductive Stmt
   | setup (acc : String) (ps : List (String × Var × Bool))   -- Bool: the value has `index` type
   | launch (acc : String) (ps : List (String × Var))
+  /-- a launch op of the snax_gemmx class carrying `m`, `shift_vals`, `mult_vals` attributes (channel-specific
+  quantisation, more output channels than the array width `n` of the registered accelerator) -/
+  | launchG (acc : String) (ps : List (String × Var)) (n : Nat) (m : Int) (shifts mults : List Int)
   | await (acc : String)
   | op (tag : Nat) (nState : Nat)
   | ifS (tag : Nat) (slots : List ISlot) (t e : Block)
@@ -81,6 +95,7 @@ end
 mutual
 inductive CStmt
   | csrw (addr : Nat) (v : Var) (cast : Bool) (isLaunch : Bool)   -- constraints "I, rK" / "I, K"
+  | csrwC (addr : Nat) (c : Int)   -- csrw ("I, rK") of a value the lowering itself computes from constants
   | poll (addr : Nat)          -- scf.while { csrr addr; cmpi ne 0; condition } do { yield }
   | clear                      -- csrw 965 (i12), 0 (i5)
   | nop
@@ -138,6 +153,94 @@ def lowerAwait (d : Decl) : List CStmt :=
   | .poll1 => [.poll d.barrier, .clear, .nop, .nop, .nop, .nop]
   | .poll3 => [.poll d.barrier]
 
+/-! ### snax_gemmx: launch with channel groups (`SNAXGEMMXAccelerator.lower_acc_launch`, `"mult_vals" in attributes`)
+
+The launch op carries the multipliers / shifts of ALL output channels; the array handles `n` channels at a
+time.  The lowering overwrites `M` and `temporal_loop_bound` with `m // groups`, launches the streamer once,
+and then, for EVERY group including the first, re-programs the `shift_*` / `mult_*` registers with that
+group's values, writes `launch_gemmx` and awaits (`self.lower_acc_await(self.generate_acc_op())`: the barrier
+of the registered accelerator's own map — the model uses the declared one, the harness registers the instance
+the declaration was generated from).  All writes use the constraint "I, rK". -/
+
+/-- `for j in range(0, len(l), 4): l[j : j + 4]` as `(j // 4, chunk)` -/
+def chunks4 (l : List Int) : List (Nat × List Int) :=
+  (List.range ((l.length + 3) / 4)).map (fun c => (c, (l.drop (4 * c)).take 4))
+
+/-- `pack_bitlist(chunk[::-1], (24, 16, 8, 0))`: the value of the emitted i32 shl/or tree (as an unsigned
+32-bit word); `zip(strict=True)`
+raises for a chunk of fewer than four values -/
+def u32 (x : Int) : Nat := (x % 4294967296).toNat
+
+/-- `x << off` on 32 bits -/
+def shl32 (x : Int) (off : Nat) : Nat := (u32 x * 2 ^ off) % 4294967296
+
+def packWord : List Int → Except Err Int
+  | [s0, s1, s2, s3] => .ok ((shl32 s3 24 ||| shl32 s2 16 ||| shl32 s1 8 ||| shl32 s0 0 : Nat) : Int)
+  | _ => .error .valueError
+
+/-- `l[i * n : i * n + n]` -/
+def groupSlice (n i : Nat) (l : List Int) : List Int := (l.drop (i * n)).take n
+
+def lowerShiftChunks (d : Decl) : List (Nat × List Int) → Except Err (List CStmt)
+  | [] => .ok []
+  | (c, ch) :: r =>
+    match packWord ch with
+    | .error e => .error e
+    | .ok w =>
+      match lookup d.fields ("shift_" ++ toString c) with
+      | none => .error .keyError
+      | some a =>
+        match lowerShiftChunks d r with
+        | .error e => .error e
+        | .ok l => .ok (.csrwC a w :: l)
+
+def lowerMults (d : Decl) : Nat → List Int → Except Err (List CStmt)
+  | _, [] => .ok []
+  | j, v :: r =>
+    match lookup d.fields ("mult_" ++ toString j) with
+    | none => .error .keyError
+    | some a =>
+      match lowerMults d (j + 1) r with
+      | .error e => .error e
+      | .ok l => .ok (.csrwC a v :: l)
+
+/-- the per-group loop; `aG` = address of `launch_gemmx` -/
+def lowerGroups (d : Decl) (n : Nat) (ps : List (String × Var)) (aG : Nat) (shifts mults : List Int) :
+    List Nat → Except Err (List CStmt)
+  | [] => .ok []
+  | i :: r =>
+    match lowerShiftChunks d (chunks4 (groupSlice n i shifts)) with
+    | .error e => .error e
+    | .ok sh =>
+      match lowerMults d 0 (groupSlice n i mults) with
+      | .error e => .error e
+      | .ok mu =>
+        match lastLookup ps "launch_gemmx" with
+        | none => .error .keyError
+        | some v =>
+          match lowerGroups d n ps aG shifts mults r with
+          | .error e => .error e
+          | .ok l => .ok (sh ++ mu ++ (.csrw aG v false false :: lowerAwait d) ++ l)
+
+def lowerLaunchG (d : Decl) (ps : List (String × Var)) (n : Nat) (m : Int) (shifts mults : List Int) :
+    Except Err (List CStmt) :=
+  match lookup d.launch "launch_gemmx", lookup d.launch "launch_streamer" with
+  | some aG, some aS =>
+    if mults.length / n = 0 then .error .zeroDiv
+    else
+      match lookup d.fields "M", lookup d.fields "temporal_loop_bound" with
+      | some aM, some aT =>
+        match lastLookup ps "launch_streamer" with
+        | none => .error .keyError
+        | some vS =>
+          match lowerGroups d n ps aG shifts mults (List.range (mults.length / n)) with
+          | .error e => .error e
+          | .ok l =>
+            .ok (.csrwC aM (Int.fdiv m (mults.length / n : Nat)) :: .csrwC aT (Int.fdiv m (mults.length / n : Nat))
+              :: .csrw aS vS false false :: l)
+      | _, _ => .error .keyError
+  | _, _ => .error .keyError
+
 mutual
 /-- one op; regions are visited last-to-first like the reverse walk -/
 def lowerStmt (ds : List Decl) : Stmt → Except Err (List CStmt)
@@ -149,6 +252,10 @@ def lowerStmt (ds : List Decl) : Stmt → Except Err (List CStmt)
     match findDecl ds acc with
     | none => .error .noAcc
     | some d => lowerLaunch d ps
+  | .launchG acc ps n m shifts mults =>
+    match findDecl ds acc with
+    | none => .error .noAcc
+    | some d => lowerLaunchG d ps n m shifts mults
   | .await acc =>
     match findDecl ds acc with
     | none => .error .noAcc
@@ -237,10 +344,38 @@ def iterN {σ ε : Type} (f : Nat → σ → σ × List ε) : Nat → Nat → σ
     let r' := iterN f n (i + 1) r.1
     (r'.1, r.2 ++ r'.2)
 
+/-- what a channel-group launch means at accfg level: `M` / `temporal_loop_bound` become `m // groups`, the
+streamer is launched, then every group programs ITS shift / mult values, launches the array and awaits -/
+def packWordD (ch : List Int) : Int :=
+  match packWord ch with
+  | .ok w => w
+  | .error _ => 0
+
+def shiftEvents (acc : String) (cs : List (Nat × List Int)) : List Ev :=
+  cs.map (fun x => Ev.fieldW acc ("shift_" ++ toString x.1) (packWordD x.2))
+
+def multEvents (acc : String) : Nat → List Int → List Ev
+  | _, [] => []
+  | j, v :: r => Ev.fieldW acc ("mult_" ++ toString j) v :: multEvents acc (j + 1) r
+
+def groupEvents (acc : String) (vG : Int) (n : Nat) (shifts mults : List Int) : List Nat → List Ev
+  | [] => []
+  | i :: r =>
+    shiftEvents acc (chunks4 (groupSlice n i shifts)) ++ multEvents acc 0 (groupSlice n i mults)
+      ++ [Ev.launchW acc "launch_gemmx" vG, Ev.await acc] ++ groupEvents acc vG n shifts mults r
+
+def launchGEvents (acc : String) (valOf : String → Int) (n : Nat) (m : Int) (shifts mults : List Int) : List Ev :=
+  Ev.fieldW acc "M" (Int.fdiv m (mults.length / n : Nat)) ::
+  Ev.fieldW acc "temporal_loop_bound" (Int.fdiv m (mults.length / n : Nat)) ::
+  Ev.launchW acc "launch_streamer" (valOf "launch_streamer") ::
+  groupEvents acc (valOf "launch_gemmx") n shifts mults (List.range (mults.length / n))
+
 mutual
 def execS {σ : Type} (sem : Sem σ) : Stmt → σ → σ × List Ev
   | .setup acc ps, s => (s, ps.map (fun p => Ev.fieldW acc p.1 (sem.val p.2.1 s)))
   | .launch acc ps, s => (s, ps.map (fun p => Ev.launchW acc p.1 (sem.val p.2 s)))
+  | .launchG acc ps n m shifts mults, s =>
+    (s, launchGEvents acc (fun f => match lastLookup ps f with | some v => sem.val v s | none => 0) n m shifts mults)
   | .await acc, s => (s, [Ev.await acc])
   | .op tag _, s => (sem.opSem tag s, [Ev.op tag])
   | .ifS tag sl t e, s =>
@@ -268,6 +403,7 @@ end
 mutual
 def execCS {σ : Type} (sem : Sem σ) : CStmt → σ → σ × List CEv
   | .csrw a v _ _, s => (s, [CEv.w a (sem.val v s)])
+  | .csrwC a c, s => (s, [CEv.w a c])
   | .poll a, s => (s, [CEv.r a])
   | .clear, s => (s, [CEv.w clearAddr 0])
   | .nop, s => (s, [])
@@ -354,14 +490,6 @@ def instrOf (f : String) : String := String.ofList (f.toList.take (f.length - 4)
 
 /-- `name.endswith(".rs1")` -/
 def isRs1 (f : String) : Bool := ".rs1".toList.isSuffixOf f.toList
-
-/-- `dict(pairs)[k]`: the value of the LAST occurrence of `k` -/
-def lastLookup {α} : List (String × α) → String → Option α
-  | [], _ => none
-  | (k', v) :: r, k =>
-    match lastLookup r k with
-    | some x => some x
-    | none => if k' == k then some v else none
 
 /-- lookup in a Python dict given as its item list -/
 def plookup {α} (d : List (String × α)) (k : String) : Option α := (d.find? (fun e => e.1 == k)).map (·.2)
